@@ -927,6 +927,15 @@ func (g *generator) nextThrow(v interface{}) (Value, resultType, *Exception) {
 	entered := true
 	defer g.unwindOnPanic(&entered)
 	ex := g.vm.handleThrow(v)
+	for ex != nil && len(g.vm.tryStack) > int(g.tryStackLen) {
+		// handleThrow() has not stopped at the frame pushed by enterNext() but at a finally frame which
+		// enterNextFinallyFrame() had turned into a marker: the generator was suspended at a yield inside a finally
+		// block entered by return(). The throw completion replaces the pending return completion and is handled
+		// by the remaining try statements of the generator body, if any.
+		g.vm.popTryFrame()
+		g.returning = nil
+		ex = g.vm.handleThrow(ex)
+	}
 	if ex != nil {
 		entered = false
 		g.vm.popTryFrame()
